@@ -80,7 +80,9 @@ class ParserState:
         assert self.parser
 
         if skip := self.parser.rules.get("SKIP"):
-            return skip.parse(self, pairs)
+            # Like WHITESPACE and COMMENT, SKIP never contributes to failures.
+            with self.suppress_failures():
+                return skip.parse(self, pairs)
 
         # Unoptimized whitespace and comment rules.
         whitespace_rule = self.parser.rules.get("WHITESPACE")
